@@ -142,7 +142,7 @@ theorem step_W (cfg : Cfg) (s : St) (op : Op) (g0 : Nat) (hl : Legal op) (h : In
   | setRespTimeout ms => exact h0
   | acquire => exact h0
   | register id => exact h0
-  | release id => exact W.congr (K_releaseIfUsed _ _ id) h0
+  | release id => exact W.congr (K_releasePacketId _ _ id) h0
   | erase id => exact w_eraseStoredPublish h0 id
   | restoreHandled ids => exact h0
   | restorePackets ps => exact w_restorePackets ps hl h0
